@@ -519,6 +519,26 @@ def bool_of(ctx, v):
     return ctx.decide(v.b)
 
 
+def check_value_getter(res, facts):
+    """the envelope is observed through Adsr::value(): it returns the stored output level and changes nothing"""
+    dds = Dds(facts)
+    total, index = pa_instantiation(facts, ADSR)
+    where = where_of(facts, ADSR + '::value')
+    n = 0
+    for state in STATES:
+        it = dds.interp()
+        st = State()
+        a = dds.make_adsr(it, st, state, total, index, rolled=None)
+        pre = copy.deepcopy(a)
+        outs, cell = run_method(it, st, ADSR + '::value', a, [])
+        res.absorb(it)
+        for o in sem_iter(outs):
+            n += 1
+            ok = o.status == 'returned' and pre.has('value') and same(o.ret, pre.get('value')) and not spec_changed(pre, o.cells[cell])
+            res.ob('R-GETTER', 'Adsr::value|%s' % state, ok, 'value() returns %r, changes %s; expected the stored output level, read-only' % (o.ret, spec_changed(pre, o.cells[cell])), where, key='R-GETTER:value:' + state)
+    return n
+
+
 def inc_spec(total, period, fs):
     """trunc(2^T / (period * fs)) as the term the code must compute (saturating f32->u32 cast)"""
     return Poly.const(1 << total) * inv_poly(period) * inv_poly(fs)
